@@ -174,6 +174,19 @@ func LoadCase(path string) (*Case, error) {
 			_ = json.Unmarshal(f, &c.Fail)
 			continue
 		}
+		if pm, ok := probe["param"]; ok {
+			// a parameter recorded while the case ran (e.g. the random key bytes that failed)
+			var kv map[string]interface{}
+			if json.Unmarshal(pm, &kv) == nil {
+				if c.Params == nil {
+					c.Params = Params{}
+				}
+				for k, v := range kv {
+					c.Params[k] = v
+				}
+			}
+			continue
+		}
 		if _, ok := probe["op"]; !ok {
 			continue
 		}
